@@ -38,7 +38,8 @@ def gen_group(rng, mix=None, allow_toy=True):
     if kind in ("ed25519", "i1024", "i2048", "i3072"):
         return {"kind": kind}
     if kind == "small":
-        return worlds.gen_int_group(rng, rng.choice([1, 2, 3, 3, 4, 5, 6, 8, 10, 12, 16]))
+        return worlds.gen_int_group(rng, rng.choice([1, 2, 3, 3, 4, 5, 6, 7, 8, 8, 9, 10, 12, 15, 16, 16, 17,
+                                                     23, 24, 25, 31, 32, 33]))
     if kind == "medium":
         return dict(rng.choice(big_groups()))
     Q, d, L = rng.choice(worlds.TOY_CURVES)
